@@ -130,6 +130,19 @@ def main(ctx):
                 for i in range(0, len(seqs), 60):
                     jobs.append({"kind": "seqs", "cfg": c, "role": role, "seqs": seqs[i:i + 60],
                                  "tier": tier, "light": True})
+        if ei in (0, 3):
+            # ... and the application closes right after its last send, while chopped / synchronous
+            # writes are still queued: everything sent before the close is on the wire, in order,
+            # before the close frame
+            def queued(o):
+                return o[0] == "chop" or (o[0] == "msg" and o[4])
+            cseqs = [list(s_) + [("close",)] for s_ in seqs if len(s_) <= 2 and any(queued(o) for o in s_)]
+            cseqs += [[o, ("close",)] for o in small]
+            for c in [c for c in cfgs if not c["autofrag"] and c["mask"] == "default"]:
+                for role in ("client", "server"):
+                    for i in range(0, len(cseqs), 60):
+                        jobs.append({"kind": "seqs", "cfg": c, "role": role, "seqs": cseqs[i:i + 60],
+                                     "tier": tier, "light": True})
         # handshake-coalesced sends and two-direction interleavings
         for c in cfgs:
             if c["autofrag"]:
@@ -145,7 +158,7 @@ def main(ctx):
     ctx.coverage["distinct_nontrivial"] = int(ctx.counters["nontrivial"])
     for n in ("op_sequences", "segmentations", "messages_delivered", "compressed_frames",
               "masked_frames", "unmasked_frames", "fragmented_messages", "coalesce_execs",
-              "duplex_execs", "queued_writes", "streammix_execs"):
+              "duplex_execs", "queued_writes", "streammix_execs", "close_after_queued_sends"):
         ctx.require(n)
 
 
@@ -266,6 +279,8 @@ def do_op(proto, factory, op, idx, seed, sent, dnc_stream=False):
         sent.append((p, binary, None))
     elif k == "ping":
         proto.sendPing(b"p" * op[1])
+    elif k == "close":
+        proto.sendClose(1000)
     elif k == "chop":
         _, L, chop = op
         p = payload(L, True, idx, seed)
@@ -582,6 +597,13 @@ def job(a):
         stats["unmasked_frames"] += sum(1 for f in frames if not f.masked)
         stats["fragmented_messages"] += sum(1 for f in frames if f.opcode in (1, 2) and not f.fin)
         stats["queued_writes"] += sum(1 for o in seq if o[0] == "chop" or (o[0] == "msg" and o[4]))
+        if seq and seq[-1][0] == "close":
+            stats["close_after_queued_sends"] = stats.get("close_after_queued_sends", 0) + 1
+            ncl = sum(1 for f in frames if f.opcode == 8)
+            if ncl != 1 or frames[-1].opcode != 8:
+                bad("wire", seq, None, "%d close frames, last frame opcode %s: the close frame is not the last "
+                    "frame on the wire" % (ncl, frames[-1].opcode if frames else None))
+            continue        # (what the receiver makes of a closing connection is C05's subject)
         expect = [(p, b) for (p, b, _) in sent]
         segs = segmentations(len(stream), frames, tier, light)
         for cuts in segs:
